@@ -497,6 +497,8 @@ def decide(prop, tier, seed):
         raw = None
         if v.get("line_text"):
             raw = [v["line_text"]]
+        if v.get("raw"):
+            raw = v["raw"]
         if v.get("ep_text"):
             import macro_stream
             raw = macro_stream.episode_inputs(v["ep_text"], upto=v["step"])
@@ -730,7 +732,12 @@ def run_lines_stream(prop, stream, tier, seed, workdir, scale=1):
             "model_runs": int(m.group(1)) if m else 0}
 
 
-STREAM_RUNNERS = {"core": run_core_stream, "macro": run_macro_stream, "lines": run_lines_stream}
+def run_sched_stream(prop, stream, tier, seed, workdir, scale=1):
+    import sched_stream
+    return sched_stream.run_sched_stream(prop, stream, tier, seed, workdir, scale)
+
+
+STREAM_RUNNERS = {"core": run_core_stream, "macro": run_macro_stream, "lines": run_lines_stream, "sched": run_sched_stream}
 
 
 # ------------------------------------------------------------------------------------------------
